@@ -194,16 +194,19 @@ def divmod(P, D, reverse=False):
         return [], P
     n = len(P) - len(D) + 1
     ld = D[-1]
-    D = [0] * (len(P) - len(D)) + D
 
-    Q = []
+    Q = [0] * n
     R = P
-    for k in range(n):
-        if not R:
-            break
+    while len(R) >= len(D):
+        # The divisor is aligned with the leading term of the current
+        # remainder: when the remainder has zero coefficients, its
+        # degree drops by more than one per step.
+        k = len(R) - len(D)
         t = R[-1] / ld
-        Q.insert(0, t)
-        R = add(R, multiply(-t, D[k:], reverse=reverse), reverse=reverse)
+        Q[k] = t
+        R = add(R, multiply(-t, [0] * k + D, reverse=reverse), reverse=reverse)
+        # the leading term of the remainder cancels
+        R = R[:-1]
         while R and R[-1] == 0:
             R.pop()
     while Q and Q[-1] == 0:
